@@ -259,6 +259,9 @@ func runC16(rc *RunCtx) {
 			rc.Fault("handler:"+r.Mode.String(), handled[r.TID])
 		}
 	}
+	if out.HeldBad != "" {
+		rc.Violate("request_changed_after_handling", "handler_kept_request", "%s", out.HeldBad)
+	}
 	if len(out.Panics) > 0 {
 		rc.Violate("panic", "harness_task", "panic in %s: %s", out.Panics[0].Task, out.Panics[0].Value)
 		return
